@@ -328,6 +328,20 @@ def limit_cases(rnd):
     add("spk-size-%d" % len(bigspk2), bigspk2, flags=NOCLEAN)
     for k in (999, 1000, 1001):
         add("stack-size-%d" % k, bytes([0x51]) * (k - 500) + bytes([0x6d]) * 0, bytes([0x51]) * 500, flags=NOCLEAN)
+    # witness programs: the initial stack (witness items without script / control block / annex) may hold 1000 items of at most 520
+    # bytes; an annex is not a stack item; the item size limit applies to tapscript and v0 arguments
+    for k in (999, 1000, 1001):
+        leaf = bytes([0x6d]) * (k // 2) + bytes([0x75]) * (k % 2) + bytes([0x51])
+        for annex in (False, True):
+            s_ = S.build(rnd, "p2tr-script", {"path_len": 1, "leaf_script": leaf, "leaf_args": [b"\x01"] * k, "annex": annex})
+            cases.append((S.spend_line(s_.tx, s_.txin, R.STD), {"kind": "limit", "label": "tapscript-initial-stack-%d%s" % (k, "-annex" if annex else ""), "flags": R.STD}))
+        ws = bytes([0x6d]) * (k // 2) + bytes([0x75]) * (k % 2) + bytes([0x51])
+        tx, ftx = S.custom(rnd, b"\x00\x20" + P.sha256(ws), b"", [b"\x01"] * k + [ws])
+        cases.append((S.spend_line(tx, ftx, R.STD), {"kind": "limit", "label": "p2wsh-initial-stack-%d" % k, "flags": R.STD}))
+    for nbytes in (520, 521):
+        for annex in (False, True):
+            s_ = S.build(rnd, "p2tr-script", {"path_len": 0, "leaf_script": bytes([0x75, 0x51]), "leaf_args": [bytes(nbytes)], "annex": annex})
+            cases.append((S.spend_line(s_.tx, s_.txin, R.STD), {"kind": "limit", "label": "tapscript-item-%d%s" % (nbytes, "-annex" if annex else ""), "flags": R.STD}))
     return cases
 
 
